@@ -70,7 +70,7 @@ func samples(rng *h.Rng, per, perBig, perFull int, st h.Stats) []sample {
 func GenC11(rng *h.Rng, tier string, emit func(string)) {
 	logger.Disable()
 	st := h.Stats{}
-	per, perBig, perFull, nmsg := 140, 10, 6, 300
+	per, perBig, perFull, nmsg := 100, 10, 6, 300
 	if tier == "thorough" {
 		per, perBig, perFull, nmsg = 600, 40, 20, 3000
 	}
@@ -154,7 +154,7 @@ func mutate(g *G, b []byte, heavy bool, yield func(kind string, m []byte)) {
 	}
 	reps := 6
 	if heavy {
-		reps = 14
+		reps = 10
 	}
 	if n > 3000 {
 		reps = 2 // large values: a few edits each, the volume goes to the small ones
